@@ -162,7 +162,13 @@ def rule_record_coherence(eng, rep, A, rule="C03-3.record-coherence-at-stores"):
                 problems.append(("nsamples", "sample count `%s` is not the number of samples of this evaluation (%s)" % (ekey(narg), names[2])))
         # evaluation number: a read of the NX counter with no other evaluation in between
         if earg is not None:
-            k = vfg.key_of(c.inner_arg("eval_num") if hasattr(c, "inner_arg") else earg)      # (through a helper: the read of the counter sits in the helper)
+            veh = earg
+            if hasattr(c, "inner_arg"):
+                ie = c.inner_arg("eval_num")
+                # through a helper: the read of the counter sits in the helper -- unless the helper merely forwards one of its own parameters,
+                # in which case the call-site argument is the read
+                veh = c.mapping.get(ie.id, ie) if isinstance(ie, ast.Name) and ie.id in c.mapping else ie
+            k = vfg.key_of(veh)
             is_nx = k in nxw.plain or any(s in nxw.plain for (s, kind, info) in vfg.preds.get(k, []) if kind == "copy")
             if not is_nx:
                 problems.append(("eval_num", "evaluation number `%s` is not a read of the point counter" % ekey(earg)))
